@@ -278,7 +278,7 @@ def text (W : Nat → Option Nat) (g : Grid) (attrs : Attrs) (c : Nat) : M Grid 
   let width := W c
   if width.isNone && c < 256 then pure g
   else do
-    let width := width.getD 1
+    let width := min (width.getD 1) 2   -- `.min(2)`: a cell holds at most a double-width character
     if width > g.size.cols then pure g else
     let wrap ← g.wrapDecision width
     let g ← g.colWrap width wrap
